@@ -99,16 +99,48 @@ static void sweep_tiny(long item)
         CNT("tiny_event_buffer_cases");
         edge_accounting();
 }
+/* a WRITE with an empty argument text, right after a line that filled the command buffer to its last byte (no NUL left in it): the bytes the decoder
+ * would meet if it did not see an empty text are the per-command match states (made printable by duplicate / prefix-related names: '"', 'B', 'a', 'f' ...)
+ * followed by the old line; the variable is larger than the buffer */
+#define N_SWEEP_E (8L * 2 * 15 * 2 * 2)
+static void sweep_empty_args(long item)
+{
+        int shape = (int)(item % 8); item /= 8; bool hex = item % 2; item /= 2; size_t cap = 6 + (size_t)(item % 15); item /= 15; bool shared = item % 2; item /= 2; bool crlf = item % 2;
+        static const char *nm[4][4] = { { "+S", "+X", "+S", "+Y" }, { "+S", "+X", "+Y", "+SB" }, { "+SA", "+X", "+S", "+SB" }, { "+S", "+SA", "+S", "+SB" } };
+        snprintf(mode, sizeof mode, "sweep: empty WRITE after a line that filled the buffer; name shape %d, %s variable of 32 bytes, capacity %zu", shape, hex ? "hex-buffer" : "string", cap);
+        w_begin();
+        struct cat_command *a = w_group(4, false);
+        for (int i = 0; i < 4; i++) {
+                const char *n = nm[shape & 3][(shape & 4) ? 3 - i : i];
+                a[i].name = xstr(n);
+                if (strcmp(n, "+X") == 0 || strcmp(n, "+Y") == 0 || strcmp(n, "+SA") == 0) a[i].write = h_write;
+                if (strcmp(n, "+S") == 0) { struct cat_variable *v = w_vars(&a[i], 1); v->type = hex ? CAT_VAR_BUF_HEX : CAT_VAR_BUF_STRING; w_vdata(v, 32); }
+        }
+        w_buffers(shared ? cap * 2 : cap, shared, 8);
+        w_init(1);
+        paint();
+        in_reset();
+        in_puts((shape & 3) == 2 || (shape & 3) == 3 ? "AT+SA=" : "AT+X=");
+        for (size_t i = 0; i < cap; i++) in_putc(hex ? 'A' : 'U');
+        in_putc('\n');
+        in_puts(crlf ? "AT+S=\r\n" : "AT+S=\n");
+        in_puts("AT+S\n");
+        sch_eager(&RS); sch_eager(&WS);
+        EP.p_event_step = 0; EP.p_handler_trigger = 0; EP.unspecified_cells = true;
+        eng_run_history();
+        CNT("empty_write_after_full_buffer_cases");
+        edge_accounting();
+}
 struct case_budget chk_budget(const char *tier)
 {
-        struct case_budget b = { N_SWEEP_A + N_SWEEP_C + N_SWEEP_D, strcmp(tier, "thorough") == 0 ? 6000000 : 90000 };
+        struct case_budget b = { N_SWEEP_A + N_SWEEP_C + N_SWEEP_D + N_SWEEP_E, strcmp(tier, "thorough") == 0 ? 6000000 : 90000 };
         return b;
 }
 void chk_run_case(uint64_t seed, long c, bool is_sweep)
 {
         (void)seed;
         eng_default_profile();
-        if (is_sweep) { if (c < N_SWEEP_A) sweep_bytes(c); else if (c < N_SWEEP_A + N_SWEEP_C) sweep_mincap(c - N_SWEEP_A); else sweep_tiny(c - N_SWEEP_A - N_SWEEP_C); return; }
+        if (is_sweep) { if (c < N_SWEEP_A) sweep_bytes(c); else if (c < N_SWEEP_A + N_SWEEP_C) sweep_mincap(c - N_SWEEP_A); else if (c < N_SWEEP_A + N_SWEEP_C + N_SWEEP_D) sweep_tiny(c - N_SWEEP_A - N_SWEEP_C); else sweep_empty_args(c - N_SWEEP_A - N_SWEEP_C - N_SWEEP_D); return; }
         snprintf(mode, sizeof mode, "random history (unspecified cells included)");
         EP.unspecified_cells = true; EP.p_weird = 25; EP.p_long_line = 20; EP.p_event_step = rn(150); EP.p_cut = 20; EP.p_lookup = 40; EP.p_toggle = 30; EP.p_empty_name = 4;
         if (chance(20)) EP.max_cmds = 64;
